@@ -4,7 +4,12 @@ case      {"loop": select|asyncio|tornado|twisted|trio|zmq, "screen": raw|legacy
            "bp": bool, "focus": bool, "sigs": custom|default, "size": [cols, rows],
            "handled": [key names / "mouse<button>" the widget handles itself],
            "filter": {"drop": [keys], "map": [[from, to], ...]},
-           "script": [event, ...], "inject": null | [i, "exit"|"boom"|"abort", callback kind]}
+           "script": [event, ...], "inject": null | [i, "exit"|"boom"|"abort", callback kind],
+           optional "tree": {"kind": "popup", "open": [keys], "close": [keys]}  (needs pop_ups; the base probe is
+           wrapped in a urwid.PopUpLauncher: an `open` key reaching it opens a pop-up holding a second probe,
+           a `close` key reaching that probe closes it),
+           optional "swap": {"key": k, "where": "key"|"unh"}  (the probe's keypress / the unhandled-input handler
+           that sees k assigns loop.widget = a fresh probe, in the middle of whatever batch k is in)}
           events: ["keys", k1, k2, ...] (written to the terminal with one write), ["mouse", button, col, row],
           ["resize", cols, rows] (TIOCSWINSZ + SIGWINCH), ["alarm"] (set_alarm_in 10 ms), ["pipe"] (a write
           to a watch_pipe descriptor), ["file"] (a write to a pipe watched with watch_file).  The last event
@@ -24,8 +29,15 @@ run       One forked child per case.  The child opens a pty pair, gives the slav
           the slave before/after, the three signal handlers before/after and the terminal bytes (per draw, final).
           No callback for STALL seconds = the child reports a stall instead.
 
+model     "which probe is topmost when this key is processed": `base` until an open key reaches the launcher,
+          `pop` until a close key reaches the pop-up probe, `w<n>` after the n-th assignment to loop.widget
+          (model_key / model_unh below; nothing is read back from urwid).  MainLoop.widget is documented as
+          "may be modified" and process_input as passing input "to widget"; the reading asserted is per key: a
+          key is given to what loop.widget / the open pop-up is when that key's turn comes, also inside a batch.
+
 oracle    check_report() -> every failing clause:
             input-order / call-order / call-missing / call-unexpected   filter -> widget -> unhandled handler
+            wrong-widget                                                the key went to a probe that is not topmost
             draw-not-current, no-redraw-before-wait                     the reference terminal shows the state
             exit-not-clean, exception-swallowed, exception-changed, run-did-not-end, spurious-end
             screen-still-started, termios-not-restored, signal-not-restored:<SIG>, terminal-modes-not-restored
@@ -58,7 +70,9 @@ RULE = (
     "Enumeration. A unit = (session script, event loop, screen kind, pop_ups, bracketed-paste/focus flags, "
     "custom|default prior signal handlers). Sessions: hand-written ones covering every event kind (key batches, "
     "SGR mouse presses, resize via TIOCSWINSZ+SIGWINCH, alarm, watch_pipe write, watch_file write, the "
-    "REDRAW_SCREEN key, filter drop/map, handled and unhandled keys) plus sessions drawn from a seeded generator "
+    "REDRAW_SCREEN key, filter drop/map, handled and unhandled keys, a PopUpLauncher pop-up opened and closed by keys "
+    "inside one batch and across batches, loop.widget reassigned by a keypress / by the unhandled handler inside a "
+    "batch) plus sessions drawn from a seeded generator (plain | pop-up | swap | both) "
     "(2-8 events). Units: every session x {select, asyncio, tornado, twisted, trio, zmq} on the raw screen + "
     "the default loop on a screen without hook_event_loop (MainLoop._run_screen_event_loop), pop_ups and the "
     "other flags alternating (quick) or crossed (thorough). For every unit the session is first run without "
@@ -146,6 +160,56 @@ def apply_filter(case, keys):
     return out
 
 
+POP_RECT = (1, 1, 4, 2)  # left, top, width, height of the pop-up
+
+
+def glyph(probe, state):
+    """what probe `probe` paints when the session has seen `state` widget input events"""
+    if probe == "base":
+        return chr(65 + state % 26)
+    if probe == "pop":
+        return chr(97 + state % 26)
+    return chr(48 + (state + 3 * int(probe[1:])) % 10)
+
+
+def model_start(case):
+    tree = case.get("tree") or {}
+    return {"top": "base", "launcher": tree.get("kind") == "popup", "swaps": 0}
+
+
+def _model_swap(m):
+    n = m["swaps"] + 1
+    return {"top": f"w{n}", "launcher": False, "swaps": n}
+
+
+def model_key(case, m, key):
+    """-> (probe that must receive key, does the widget tree handle it, model afterwards)"""
+    tree = case.get("tree") or {}
+    target, after, handled = m["top"], dict(m), widget_handles(case, key)
+    if m["launcher"] and target == "base" and key in tree.get("open", []):
+        after["top"], handled = "pop", True
+    elif m["launcher"] and target == "pop" and key in tree.get("close", []):
+        after["top"], handled = "base", True
+    sw = case.get("swap")
+    if sw and sw["where"] == "key" and key == sw["key"]:
+        after = _model_swap(after)
+    return target, handled, after
+
+
+def model_unh(case, m, key):
+    sw = case.get("swap")
+    if sw and sw["where"] == "unh" and key == sw["key"]:
+        return _model_swap(m)
+    return m
+
+
+def malformed(case):
+    tree, sw = case.get("tree"), case.get("swap")
+    if tree and (tree.get("kind") != "popup" or not case["pop_ups"]):
+        return True
+    return bool(sw and (sw["key"] in ("q", REDRAW_KEY) or sw["where"] not in ("key", "unh")))
+
+
 def widget_handles(case, item):
     if isinstance(item, str):
         return item in case["handled"]
@@ -180,6 +244,9 @@ class _Harness:
         self.state = 0
         self.ml = None
         self.pipe_wr = None
+        self.swaps = 0
+        self.widgets = []
+        self.make_probe = None
         self.file_rd = self.file_wr = None
         self.phase = "setup"
 
@@ -228,8 +295,25 @@ class _Harness:
                 self.advance()  # alarms are set from input / alarm / watch callbacks or before run(), never from a draw
         return apply_filter(self.case, [k if isinstance(k, str) else tuple(k) for k in keys])
 
+    def key_event(self, name, key):
+        """a probe (or the launcher, on behalf of the base probe) is given a key"""
+        self.enter("key", key, name)
+        self.state += 1
+        sw = self.case.get("swap")
+        if sw and sw["where"] == "key" and key == sw["key"]:
+            self.do_swap()
+        for w in self.widgets:
+            w._invalidate()  # every probe paints the session state
+
+    def do_swap(self):
+        self.swaps += 1
+        self.ml.widget = self.make_probe(f"w{self.swaps}")
+
     def unhandled(self, key):
         self.enter("unh", key)
+        sw = self.case.get("swap")
+        if sw and sw["where"] == "unh" and key == sw["key"]:
+            self.do_swap()
         if key == "q":
             if self.exc is None:
                 self.exc = ExitMainLoop()
@@ -388,26 +472,57 @@ def _child_body(case, stall, emit):
             super().draw_screen(size, canvas)
             h.on_draw()
 
+    tree = case.get("tree") or {}
+
     class Probe(urwid.Widget):
         _sizing = frozenset(["box"])
         _selectable = True
         no_cache = ["render"]  # noqa: RUF012
 
+        def __init__(self, name, launcher=None):
+            super().__init__()
+            self.name, self.launcher = name, launcher
+            h.widgets.append(self)
+
         def render(self, size, focus=False):
-            h.enter("render", h.state, list(size))
-            return urwid.SolidCanvas(chr(65 + h.state % 26), size[0], size[1])
+            h.enter("render", h.state, list(size), self.name)
+            return urwid.SolidCanvas(glyph(self.name, h.state), size[0], size[1])
 
         def keypress(self, size, key):
-            h.enter("key", key)
-            h.state += 1
-            self._invalidate()
+            h.key_event(self.name, key)
+            if self.name == "pop" and key in tree.get("close", []):
+                self.launcher.close_pop_up()
+                return None
             return None if widget_handles(case, key) else key
 
         def mouse_event(self, size, event, button, col, row, focus):
-            h.enter("mouse", [event, button, col, row])
+            h.enter("mouse", [event, button, col, row], self.name)
             h.state += 1
-            self._invalidate()
+            for w in h.widgets:
+                w._invalidate()
             return widget_handles(case, [event, button, col, row])
+
+    class Launcher(urwid.PopUpLauncher):
+        def __init__(self, w):
+            super().__init__(w)
+            h.widgets.append(self)
+
+        def create_pop_up(self):
+            return Probe("pop", self)
+
+        def get_pop_up_parameters(self):
+            left, top, width, height = POP_RECT
+            return {"left": left, "top": top, "overlay_width": width, "overlay_height": height}
+
+        def keypress(self, size, key):
+            if key in tree.get("open", []):
+                h.key_event("base", key)
+                self.open_pop_up()
+                return None
+            return self._original_widget.keypress(size, key)
+
+    h.make_probe = Probe
+    root = Launcher(Probe("base")) if tree.get("kind") == "popup" else Probe("base")
 
     class LegacyScreen:
         """a screen class that predates hook_event_loop (MainLoop then runs _run_screen_event_loop)"""
@@ -442,7 +557,7 @@ def _child_body(case, stall, emit):
             signal.signal(num, signal.SIG_DFL)
 
     ml = urwid.MainLoop(
-        Probe(), [], screen=screen, handle_mouse=True, input_filter=h.input_filter,
+        root, [], screen=screen, handle_mouse=True, input_filter=h.input_filter,
         unhandled_input=h.unhandled, event_loop=loop, pop_ups=case["pop_ups"],
     )
     h.ml = ml
@@ -584,7 +699,8 @@ def check_report(case, rep):
     exp_inputs = expected_inputs(case)
     seen_inputs = []  # what the filter has been given so far
     queue = []  # callbacks still owed for the last filter call
-    state = 0  # number of input events the widget has received
+    state = 0  # number of input events the widgets have received
+    model = model_start(case)  # which probe is topmost
     raised = None  # ["raise", i, kind, callback]
     who = ""
     resize_pending = False
@@ -623,16 +739,22 @@ def check_report(case, rep):
                     # not in the statement; without it the restoration half would be vacuous
                     return [Violation("start-modes", f"after the first draw the terminal modes are {got}, expected {want}")]
             if raised is None and not resize_pending:
-                letter = chr(65 + state % 26)
-                bad = [r for r in range(min(rows, vt.rows)) if vt.row_text(r) != letter * cols]
+                under = "base" if model["top"] == "pop" else model["top"]
+                want_rows = [glyph(under, state) * cols for _ in range(rows)]
+                if model["top"] == "pop":
+                    left, top, width, height = POP_RECT
+                    for r in range(top, top + height):
+                        want_rows[r] = want_rows[r][:left] + glyph("pop", state) * width + want_rows[r][left + width:]
+                bad = [r for r in range(min(rows, vt.rows)) if vt.row_text(r) != want_rows[r]]
                 if bad or vt.rows != rows:
                     return [Violation(
                         "draw-not-current",
-                        f"after draw #{draws} the terminal does not show the widget state {state} "
-                        f"({letter!r} x {cols} on {rows} rows): row {bad[:1]} is "
-                        f"{vt.row_text(bad[0]) if bad else None!r}; log: {_fmt(log[:pos + 1])}",
+                        f"after draw #{draws} the terminal does not show the widget state {state} with "
+                        f"{model['top']!r} topmost ({cols} x {rows}): row {bad[:1]} is "
+                        f"{vt.row_text(bad[0]) if bad else None!r}, expected "
+                        f"{want_rows[bad[0]] if bad else None!r}; log: {_fmt(log[:pos + 1])}",
                     )]
-                drawn_state = state
+                drawn_state = (state, model["top"])
             continue
         if raised is not None:
             continue  # callbacks after the first exception: nothing is asserted
@@ -656,18 +778,24 @@ def check_report(case, rep):
                 )]
             if "window resize" in keys:
                 resize_pending = False
+            m = model  # walk the model through the batch: [callback, input, probe that must get it, model after]
             for item in apply_filter(case, keys):
                 if item == "window resize":
                     continue
                 if isinstance(item, str):
-                    queue.append(["key", item])
+                    target, handled, m = model_key(case, m, item)
+                    queue.append(["key", item, target, m])
                 else:
-                    queue.append(["mouse", item])
-                if not widget_handles(case, item):
+                    if m["top"] == "pop":
+                        raise Discard()  # a click while the pop-up is open is Overlay geometry, not this property
+                    target, handled = m["top"], widget_handles(case, item)
+                    queue.append(["mouse", item, target, m])
+                if not handled:
                     if item == REDRAW_KEY:
-                        queue.append(["unh?", item])
+                        queue.append(["unh?", item, None, m])
                     else:
-                        queue.append(["unh", item])
+                        m = model_unh(case, m, item)
+                        queue.append(["unh", item, None, m])
             continue
         if kind == "render":
             continue
@@ -682,13 +810,19 @@ def check_report(case, rep):
                     "call-unexpected",
                     f"{got} was called although no input event was owed to it; log: {_fmt(log[:pos + 1])}",
                 )]
-            if queue[0] != got:
+            if queue[0][:2] != got:
                 return [Violation(
                     "call-order",
-                    f"expected {queue[0]} next (filter -> widget -> unhandled handler only for input the widget "
+                    f"expected {queue[0][:2]} next (filter -> widget -> unhandled handler only for input the widget "
                     f"returned), got {got}; log: {_fmt(log[:pos + 1])}",
                 )]
-            queue.pop(0)
+            if kind != "unh" and queue[0][2] != e[3]:
+                return [Violation(
+                    "wrong-widget",
+                    f"{got[1]!r} was given to probe {e[3]!r}; the topmost widget when its turn came is "
+                    f"{queue[0][2]!r}; log: {_fmt(log[:pos + 1])}",
+                )]
+            model = queue.pop(0)[3]
             if kind in ("key", "mouse"):
                 state += 1
             continue
@@ -703,11 +837,11 @@ def check_report(case, rep):
                 f"{who} raised {EXC_NAME[raised[2]]} but run() went on waiting; log: {_fmt(log)}",
             )]
         o = rep.get("outstanding")
-        if o is None and state > 0 and drawn_state != state:
+        if o is None and state > 0 and drawn_state != (state, model["top"]):
             return [Violation(
                 "no-redraw-before-wait",
-                f"the widget reached state {state}, the last completed draw showed state {drawn_state}, and the "
-                f"loop went on waiting; log: {_fmt(log)}",
+                f"the widgets reached state {(state, model['top'])}, the last completed draw showed {drawn_state}, "
+                f"and the loop went on waiting; log: {_fmt(log)}",
             )]
         if o is not None and o[0] == "input":
             return [Violation(
@@ -791,6 +925,8 @@ def _listed(case, v):
 
 
 def check_case(case):
+    if malformed(case):
+        raise Discard()
     name = f"{case['loop']}/{case['screen']}"
     _LAST.clear()
     rep = None
@@ -847,6 +983,16 @@ FIXED_SESSIONS = [
      "script": [["resize", 12, 4], ["keys", "b"], ["resize", 40, 9], ["resize", 20, 5], ["keys", "a"], Q]},
     # shortest
     {"handled": ["a"], "filter": {"drop": [], "map": []}, "script": [["keys", "a"], Q]},
+    # the topmost widget changes inside a batch: 'f5' opens a pop-up (PopUpLauncher), 'enter' typed into the pop-up
+    # closes it; one write holding opener + keys + closer + keys, then the same split over two writes
+    {"handled": ["a"], "filter": {"drop": [], "map": []}, "tree": {"kind": "popup", "open": ["f5"], "close": ["enter"]},
+     "script": [["keys", "a", "f5", "b", "enter", "x"], ["keys", "f5", "y"], ["keys", "enter", "a"], Q]},
+    # loop.widget is reassigned by the keypress that sees 'x' (twice), in the middle of a batch
+    {"handled": ["a"], "filter": {"drop": [], "map": []}, "swap": {"key": "x", "where": "key"},
+     "script": [["keys", "a", "x", "b", "a"], ["keys", "x", "b"], Q]},
+    # ... and by the unhandled-input handler that sees 'y', typed into an open pop-up
+    {"handled": [], "filter": {"drop": [], "map": []}, "tree": {"kind": "popup", "open": ["f5"], "close": ["enter"]},
+     "swap": {"key": "y", "where": "unh"}, "script": [["keys", "f5", "y", "a"], ["keys", "b"], Q]},
 ]
 
 
@@ -874,7 +1020,20 @@ def gen_session(rng, legacy_ok):
     if rng.random() < 0.5:
         a, b = rng.sample([k for k in names if k not in drop], 2)
         pairs.append([a, b])
-    return {"handled": handled, "filter": {"drop": drop, "map": pairs}, "script": script}
+    out = {"handled": handled, "filter": {"drop": drop, "map": pairs}, "script": script}
+    reach = [k for k in names if k not in drop and k not in [a for a, _b in pairs] and k != REDRAW_KEY]
+    typed = [k for ev in script if ev[0] == "keys" for k in ev[1:] if k in reach]
+    mode = rng.choice(["plain", "plain", "popup", "swap", "both"])
+    if mode in ("popup", "both"):
+        # openers / closers preferably among the keys the session types
+        pool = (typed + reach)[:]
+        o = rng.choice(pool)
+        c = rng.choice([k for k in pool if k != o])
+        out["tree"] = {"kind": "popup", "open": [o], "close": [c]}
+        out["script"] = [ev for ev in script if ev[0] != "mouse"] or [list(Q)]
+    if mode in ("swap", "both"):
+        out["swap"] = {"key": rng.choice(typed or reach), "where": rng.choice(["key", "unh"])}
+    return out
 
 
 def legacy_script(script):
@@ -896,15 +1055,21 @@ def units(ctx):
                 variants = [((si + k) % 2 == 1, (si + k) % 3 != 0)]
             else:
                 variants = [(False, True), (True, True)] if (si + k) % 2 else [(True, False), (False, True)]
+            if s.get("tree"):
+                variants = sorted({(True, flags) for _pop, flags in variants})  # a pop-up needs the PopUpTarget
             for pop, flags in variants:
                 k += 1
-                out.append({
+                u = {
                     "loop": lp, "screen": scr, "pop_ups": bool(pop), "bp": bool(flags), "focus": bool(flags),
                     "sigs": "custom" if flags else "default", "size": [20, 5],
                     "handled": s["handled"], "filter": s["filter"],
                     "script": legacy_script(s["script"]) if scr == "legacy" else s["script"],
                     "inject": None,
-                })
+                }
+                for opt in ("tree", "swap"):
+                    if s.get(opt):
+                        u[opt] = s[opt]
+                out.append(u)
     return out
 
 
@@ -944,6 +1109,9 @@ def _shrink(case, v, seconds):
             return attempt(cand)
         return any(attempt(dict(cand, inject=[j, inj[1], inj[2]])) for j in range(inj[0], -1, -1))
 
+    for key in ("swap", "tree"):
+        if key in best:
+            attempt({k: v_ for k, v_ in best.items() if k != key})
     for key, plain in (("pop_ups", False), ("bp", False), ("focus", False), ("sigs", "default"),
                        ("filter", {"drop": [], "map": []}), ("handled", [])):
         attempt(dict(best, **{key: plain}))
